@@ -186,6 +186,8 @@ def deadlinesHB (w : World) (t : Nat) : World :=
         let acc := acc.updInst x.cfg.id fun y => { y with demoteDue := none }
         if why == "health threshold reached" then
           checkW acc (!x.flag) "C12" "health-demotion-missing" s!"instance {x.cfg.id} still reports leadership after {d} ({why})"
+        else if why == "the reconnect verification's read failed" then
+          checkW acc (!x.flag) "C11" "kept-leadership-without-a-fresh-read" s!"instance {x.cfg.id} still reports leadership after {d} ({why})"
         else
           checkW acc (!x.flag) "C03" "still-claiming-after-deadline" s!"instance {x.cfg.id} still reports leadership after {d} ({why})"
       else acc
@@ -407,6 +409,14 @@ def step (m : MState) (e : TEv) : MState :=
     | none => { m with w := failW w0 "TRACE" "ret-unknown-op" s!"{op}" }
     | some p =>
       let w := { w0 with ops := w0.ops.filter (·.id ≠ op) }
+      -- C11: after a reconnect notification the leader keeps leadership only if a fresh read shows its own record: a
+      -- verification read that is answered with an error shows nothing
+      let w := match r, w.inst? p.inst with
+        | .err _, some x =>
+          if p.site == "verifyLeadershipAfterReconnect" && x.flag && x.stopCalledSince.isNone then
+            w.setInst { x with demoteDue := earlier x.demoteDue (e.t, "the reconnect verification's read failed") }
+          else w
+        | _, _ => w
       -- an acquiring write acknowledged after the run has ended (stop call begun or context cancelled) is refused promotion:
       -- the instance keeps a note of the orphan record (it deletes it in a later StopWithContext{DeleteKey})
       let w := match r, p.val, w.inst? p.inst with
@@ -494,6 +504,7 @@ def step (m : MState) (e : TEv) : MState :=
     match w0.op? op with
     | none => { m with w := w0 }
     | some p =>
+      let w0 := { w0 with ops := w0.ops.map fun (q : PendingOp) => if q.id = op then { q with site := fn } else q }
       match w0.inst? p.inst with
       | none => { m with w := w0 }
       | some x =>
@@ -646,10 +657,13 @@ def step (m : MState) (e : TEv) : MState :=
           let delFailed := match x.lastDeleteFailedAt with | some td => decide (a.t ≤ td) | none => false
           checkW w (!(del && mine && ((a.ownerAtCall && a.flagAtCall) || ackedMine)) || delFailed || x.cut) "C09" "record-survives-deletekey" s!"instance {i}: its record is still live when StopWithContext(DeleteKey) returns"
         | .stop, _ | .stopctx _ _ _ _, _ => w.setInst { x with stopsInProgress := x.stopsInProgress - 1, opsDuringStop := [] }
-        | .validate _, .verdict true tok _ =>
+        | .validate cto, .verdict true tok _ =>
+          -- (a context time-out of 1 ns in the trace stands for a context the caller had cancelled before the call)
+          let w := checkW w (cto ≠ 1) "C04" "true-on-cancelled-context" s!"instance {i}: ValidateToken returned true although the caller's context was already cancelled"
           checkW (w.hit "C04:validate-true")  (tok != 0 && a.sawValid.contains tok && a.flagAtCall && tok == a.tokAtCall) "C04" "validate-true-unsound"
             s!"instance {i}: ValidateToken returned true for token {tok}, but during the call the record never held its id with that token (seen: {a.sawValid}; leader at call: {a.flagAtCall}, term token {a.tokAtCall})"
-        | .validateOrDemote _, .verdict v tok il =>
+        | .validateOrDemote cto, .verdict v tok il =>
+          let w := checkW w (!v || cto ≠ 1) "C04" "true-on-cancelled-context" s!"instance {i}: ValidateTokenOrDemote returned true although the caller's context was already cancelled"
           let w := w.hit (if v then "C04:or-demote-true" else if a.flagAtCall then "C04:or-demote-false-leader" else "C04:or-demote-false-follower")
           let w := checkW w (!v || (tok != 0 && a.sawValid.contains tok && a.flagAtCall && tok == a.tokAtCall)) "C04" "validate-true-unsound"
             s!"instance {i}: ValidateTokenOrDemote returned true for token {tok}, but during the call the record never held its id with that token (seen: {a.sawValid})"
